@@ -15,7 +15,7 @@ VARIABLES l, tally
 vars == <<l, tally>>
 
 Obs == ndJsonDeserialize(ObsFile)
-EitherFaults == {"refhash", "refhashslash", "refdefsempty", "defaultemptykey", "badgotype"}
+EitherFaults == {"refhash", "refhashslash", "refdefsempty", "defaultemptykey", "badgotype", "selfallof", "selfanyof", "recallof"}
 \* scenarios whose successful output is, by construction, not valid Go: "complete" means written, not parsable
 \* (byte-level mutations of a valid schema can produce names or texts whose emitted code is not valid Go either)
 Unparsable(sc) == sc.flags = "bytes" \/ \E k \in DOMAIN sc.args : sc.args[k].fault = "badgotype"
